@@ -114,6 +114,7 @@ def gen_table(tier, seed):
             lay["index"] = r.choice(["none", "none", "multi", "multi", "unnamed"]) if r.random() < 0.9 else "none"
             lay["index_col"] = r.randrange(4)
             lay["csv"] = r.random() < 0.2
+            lay["dup_labels"] = r.random() < 0.2
             stats["index"][lay["index"]] = stats["index"].get(lay["index"], 0) + 1
             stats["csv"] += int(lay["csv"])
             faults = []
@@ -126,6 +127,15 @@ def gen_table(tier, seed):
                 stats["faulty"] += 1
             miss, extra = r.choice([(0, 0), (0, 0), (1, 0), (0, 1), (1, 1)])
             stats["flags"][f"{miss}{extra}"] = stats["flags"].get(f"{miss}{extra}", 0) + 1
+            if extra and any(f["kind"] == "relabel" for f in faults) and r.random() < 0.7:
+                # rows to be ignored in a hand-assembled frame whose row labels repeat
+                lay["dup_labels"] = True
+                lay["index"] = "none"
+                if r.random() < 0.6:
+                    miss = 1
+                stats["dup_label_relabel"] = stats.get("dup_label_relabel", 0) + 1
+                if r.random() < 0.7:
+                    lay["wide"] = None
             target = "existing" if r.random() < 0.35 else "new"
             stats["existing_target"] += int(target == "existing")
             ops.append({"op": "fromdf", "layout": lay, "faults": faults, "miss": miss, "extra": extra, "target": target})
